@@ -335,6 +335,25 @@ def check(P: Project, R: Report) -> None:
                 R.ob("R2", f"{f.qual}: an event without an event field is dispatched (default type message)", not needs_event, f"{f.module.rel}:{n.lineno}",
                      f"dispatch is conditional on `{t}`: data-only events — the default `message` type of the event-stream format — are dropped")
 
+    # chunk- and terminator-independence of the two http recognisers
+    from . import _chunks
+
+    R.rule("R6", "line cutting: the SSE body is cut at the constant LF only (a trailing CR is stripped per line), and the streaming reader appends every non-empty chunk to its buffer")
+    for f, head in recognisers(P, A.MOD_HTTP):
+        loops = [l for l in walk_local(f.node) if isinstance(l, (ast.AsyncFor,)) and "aiter" in ast.unparse(l.iter)]
+        if loops:
+            lp = loops[0]
+            _chunks.no_discard_before_accumulate(R, "R6", f, lp, f.qual)
+            b = _chunks.accumulate_var(lp)
+            if b:
+                _chunks.line_cut_discipline(R, "R6", f, lp, [b], f.qual)
+        else:
+            tp = [p for p in f.positional_params() if p != "self"]
+            if tp:
+                _chunks.line_cut_discipline(R, "R6", f, f.node, [tp[0]], f.qual)
+        strips = [c for c in walk_local(f.node) if isinstance(c, ast.Call) and isinstance(c.func, ast.Attribute) and c.func.attr in ("rstrip", "strip") and (not c.args or (isinstance(c.args[0], ast.Constant) and "\r" in str(c.args[0].value)))]
+        R.ob("R6", f"{f.qual}: a trailing CR is removed from each line (CRLF bodies)", bool(strips), f"{f.module.rel}:{f.node.lineno}", "no per-line rstrip('\\r'): with CRLF line ends the blank line that ends an event is never recognised")
+
     # ------------------------------------------------------------------ R3
     val_calls = [c for c in walk_local(router.node) if isinstance(c, ast.Call) and call_name(c).endswith(".model_validate")]
     R.need(val_calls, "anchor: the router no longer validates with the single-message class")
